@@ -32,6 +32,7 @@ from ..core.callgraph import CallGraph
 from ..core.flow import Flow
 from ..core.index import FuncRef, unparse, walk_no_nested
 from ..core.report import AnalysisError, Finding, RuleResult
+from . import _expand as X
 
 EXPLANATION = (
     "Effect analysis: the set of context attributes written anywhere on the expand/parse path is "
@@ -569,10 +570,9 @@ def rule_r3(ctx) -> RuleResult:
         rr.ok("luaexec.call_lua_sandbox", "every path to ctx.lua_invoke on which the environment stack may be empty passes "
               "initialize_lua(ctx) or ctx.lua_reset_env()", {"paths_to_invoke": len(reached)})
     # both stacks popped after the call on every path: statements after the try
-    pops = [n for n in fn.body if isinstance(n, ast.If) and "lua_env_stack" in unparse(n.test) and "pop()" in unparse(n)]
-    popf = [n for n in fn.body if isinstance(n, ast.If) and "lua_frame_stack" in unparse(n.test) and "pop()" in unparse(n)]
-    trys = [n for n in fn.body if isinstance(n, ast.Try)]
-    if pops and popf and trys and pops[0].lineno > trys[-1].end_lineno and popf[0].lineno > trys[-1].end_lineno:
+    ke, _ne = X.lua_stack_cleanup(fn, "lua_env_stack")
+    kf, _nf = X.lua_stack_cleanup(fn, "lua_frame_stack")
+    if ke is not None and kf is not None:
         rr.ok("luaexec.call_lua_sandbox", "env and frame stacks popped after the try on every path")
     else:
         rr.bad(Finding("C09.R3", LX, "luaexec.call_lua_sandbox", "lua_env_stack.pop() / lua_frame_stack.pop()",
